@@ -113,8 +113,29 @@ impl WrappedWrite {
     { unimplemented!() }
 }
 
+/*@type file=src/subdevice/types.rs name=IoRanges derive="Clone, PartialEq, Eq, Debug" @*/
+/*@type file=src/subdevice/configuration.rs name=PdoDirection derive="Clone, Copy, PartialEq, Eq, Debug" @*/
+/// SubDeviceState is an opaque payload in the preludes; the one variant named here (src/subdevice_state.rs: PreOp = 0x02)
+impl SubDeviceState { #[allow(non_upper_case_globals)] pub const PreOp: SubDeviceState = SubDeviceState(2); }
+pub assume_specification[ <SubDeviceState as PartialEq>::eq ](a: &SubDeviceState, b: &SubDeviceState) -> (r: bool)
+    ensures r == (*a == *b);
+/// the part of SubDevice (reached through `self.state`, `S: DerefMut<Target = SubDevice>`) that configure_fmmus touches
+pub struct MbxCfg { pub has_coe: bool }
+pub struct SdConfig { pub mailbox: MbxCfg, pub io: IoRanges }
+pub struct SdState { pub config: SdConfig }
+/// EEPROM contents as far as configure_fmmus hands them on (opaque lists; parsing: C12/C13)
+pub struct SmVec { pub _p: u8 }
+pub struct FuVec { pub _p: u8 }
+pub struct Eep { pub _p: u8 }
+impl Eep {
+    #[verifier::external_body]
+    pub async fn sync_managers(&self) -> (r: Result<SmVec, Error>) { unimplemented!() }
+    #[verifier::external_body]
+    pub async fn fmmus(&self) -> (r: Result<FuVec, Error>) { unimplemented!() }
+}
+
 /// the fields of SubDeviceRef used here
-pub struct SubDeviceRef<'a> { pub maindevice: &'a MainDevice, pub configured_address: u16 }
+pub struct SubDeviceRef<'a> { pub maindevice: &'a MainDevice, pub configured_address: u16, pub state: SdState }
 
 impl<'a> SubDeviceRef<'a> {
 /*@fn file=src/subdevice/mod.rs impl="impl<'maindevice, S> SubDeviceRef<'maindevice, S>" name=write subst="impl Into<u16>=>RegisterAddress" props=C08
@@ -129,6 +150,44 @@ impl<'a> SubDeviceRef<'a> {
         // Ok only if THIS device (its own station address) acknowledged the request without raising its error flag
         r is Ok ==> exists|resp: AlControl| #[trigger] al_exchange(Writes::Fpwr { address: self.configured_address, register: 0x0120 },
                 AlControl { state: desired_state, error: false, id_request: false }, resp) && !resp.error,
+@*/
+
+    #[verifier::external_body]
+    pub fn eeprom(&self) -> (r: Eep) { unimplemented!() }
+    /// AL status read (src/subdevice/mod.rs::state): any state or an error
+    #[verifier::external_body]
+    pub async fn state(&self) -> (r: Result<SubDeviceState, Error>) { unimplemented!() }
+    /// the sync-manager passes (iterator adapters keep them out of Verus' reach): ASSUMED to return the segment from the
+    /// offset they were given up to the offset they leave behind, never moving it backwards
+    #[verifier::external_body]
+    pub async fn configure_pdos_coe(&self, sync_managers: &SmVec, fmmu_usage: &FuVec, direction: PdoDirection, global_offset: &mut PdiOffset) -> (r: Result<PdiSegment, Error>)
+        ensures r is Ok ==> (r->Ok_0).bytes.start == old(global_offset).start_address as usize
+            && (r->Ok_0).bytes.end == final(global_offset).start_address as usize
+            && final(global_offset).start_address >= old(global_offset).start_address
+    { unimplemented!() }
+    #[verifier::external_body]
+    pub async fn configure_pdos_eeprom(&self, sync_managers: &SmVec, direction: PdoDirection, global_offset: &mut PdiOffset) -> (r: Result<PdiSegment, Error>)
+        ensures r is Ok ==> (r->Ok_0).bytes.start == old(global_offset).start_address as usize
+            && (r->Ok_0).bytes.end == final(global_offset).start_address as usize
+            && final(global_offset).start_address >= old(global_offset).start_address
+    { unimplemented!() }
+
+/*@fn file=src/subdevice/configuration.rs impl="impl<S> SubDeviceRef<'_, S>" name=configure_fmmus props=C08
+    requires group_start_address <= global_offset.start_address
+    ensures
+        final(self).configured_address == old(self).configured_address,
+        // Ok => the window recorded for this direction is [offset given - image start, offset returned - image start): the next
+        // device's window starts where this one ends; the other direction's window is untouched
+        r is Ok ==> (r->Ok_0).start_address >= global_offset.start_address && ({
+            let lo = (global_offset.start_address - group_start_address) as usize;
+            let hi = ((r->Ok_0).start_address - group_start_address) as usize;
+            match direction {
+                PdoDirection::MasterRead => final(self).state.config.io.input.bytes == (lo..hi)
+                    && final(self).state.config.io.output == old(self).state.config.io.output,
+                PdoDirection::MasterWrite => final(self).state.config.io.output.bytes == (lo..hi)
+                    && final(self).state.config.io.input == old(self).state.config.io.input,
+            }
+        }),
 @*/
 
 /*@fn file=src/subdevice/configuration.rs impl="impl<S> SubDeviceRef<'_, S>" name=write_fmmu_config props=C08
